@@ -40,6 +40,7 @@ class Model:
         self.killed = set()
         self.started_now = []
         self.exp = []
+        self.pending = {}        # killed, not yet released by a reference implementation
 
     def running(self, n):
         return n in self.runnable or n in self.waiting or n in self.started_now
@@ -61,6 +62,8 @@ class Model:
         for lst in (self.runnable, self.started_now):
             if n in lst:
                 lst.remove(n)
+        # released 'no later than the frame in which it would next have run'
+        self.pending[n] = list(self.waiting[n][:2]) if n in self.waiting else [0, 0]
         self.waiting.pop(n, None)
         self.killed.add(n)
         return 'ok'
@@ -72,10 +75,18 @@ class Model:
             return 2
         return 0
 
-    def process(self, dt):
-        # coroutines started since the last frame join at the end
+    def process(self, dt, obs=()):
+        # `obs`: the names in the order the real processor ran them in this frame.  The property
+        # fixes the relative order of the coroutines that STAY runnable only; where newly started
+        # or woken ones are placed is not specified, so their places are taken from `obs`.
+        for n in list(self.pending):
+            self.pending[n][1] += dt
+            if self.pending[n][1] >= self.pending[n][0]:
+                del self.pending[n]
+        stay = list(self.runnable)
         self.runnable += self.started_now
         self.started_now = []
+        self.stayers = stay
         woken = []
         for n in list(self.waiting):
             self.waiting[n][1] += dt
@@ -86,6 +97,15 @@ class Model:
             del self.waiting[n]
             woken.append(n)
         order = list(self.runnable) + woken
+        obs = list(obs)
+        new = [n for n in order if n not in stay]
+        if new:
+            # stable: stayers keep the model's order, newcomers go where they were observed
+            def key(n):
+                return obs.index(n) if n in obs else len(obs) + order.index(n)
+            placed = sorted(order, key=key)
+            if [n for n in placed if n in stay] == stay:
+                order = placed
         self.runnable = order
         frame = []
         for n in list(order):
@@ -109,7 +129,10 @@ class Model:
                 elif kind == 'kill':
                     self.kill(other)
             if n not in self.runnable:
-                continue            # killed itself
+                # killed itself: it would next have run after the wait it asks for now
+                if n in self.pending and wait is not None and wait > 0:
+                    self.pending[n] = [wait, 0]
+                continue
             if wait is not None and wait > 0:
                 self.runnable.remove(n)
                 self.waiting[n] = [wait, 0]
@@ -135,23 +158,28 @@ def run_history(scripts, history):
             gens[n] = make_gen(n, scripts[n], env)
         return gens[n]
 
+    flag = {'d15': False}
+    m = Model(scripts)
+
     def act(me, action):
         kind, other = action
         try:
             if kind == 'start':
+                if other in m.pending:
+                    flag['d15'] = True
                 promises[other] = cp.start(gen_of(other))
             elif kind == 'kill':
                 cp.kill(gen_of(other))
         except ValueError:
             pass
     env['act'] = act
-    m = Model(scripts)
-    flag = {'d15': False}
 
     def tag(v):
+        # every symptom that follows a start() issued while a kill of the same generator was
+        # pending is one finding (D15), whatever it looks like afterwards
         if v and flag['d15']:
-            return (v[0], v[1] + ' [a generator was started again while its kill was still pending]',
-                    v[2] + ':restart-with-pending-kill')
+            return ('C09', v[1] + ' [a generator was started again while its kill was still pending]',
+                    'restart-with-pending-kill')
         return v
     v = _run(scripts, history, env, cp, gens, promises, gen_of, m, flag)
     return tag(v)
@@ -163,7 +191,7 @@ def _run(scripts, history, env, cp, gens, promises, gen_of, m, flag):
         try:
             if kind in ('start', 'kill'):
                 n = op[1]
-                if kind == 'start' and n in gens and gens[n] in cp._kill_queue:
+                if kind == 'start' and n in m.pending:
                     flag['d15'] = True
                 exp = getattr(m, kind)(n)
                 try:
@@ -185,9 +213,9 @@ def _run(scripts, history, env, cp, gens, promises, gen_of, m, flag):
                         pass
             elif kind == 'process':
                 before = len(env['log'])
-                expf, woken = m.process(op[1])
                 cp.process(op[1])
                 got = env['log'][before:]
+                expf, woken = m.process(op[1], [x[0] for x in got])
                 # woken coroutines with equal deadlines may run in either order
                 if got != expf and not same_up_to_ties(got, expf, woken):
                     return ('C08', 'frame %d (dt=%s): executed %r, expected %r' % (step, op[1], got, expf), 'frame')
@@ -206,12 +234,12 @@ def _run(scripts, history, env, cp, gens, promises, gen_of, m, flag):
             if n in m.done and n in promises and n not in getattr(m, 'exhausted', set()) \
                     and promises[n].value != 'ret_' + n:
                 return ('C09', 'promise of %s holds %r' % (n, promises[n].value), 'promise-value')
-        # released: nothing of a finished/killed coroutine is kept
+        # released: nothing of a finished/killed coroutine is kept once the frame in which it would
+        # next have run is over (m.pending: killed, that frame not reached yet)
         for n in (m.done | m.killed):
             if n in gens and not m.running(n):
                 g = gens[n]
-                pending_kill = g in cp._kill_queue
-                if g in cp._generators and not pending_kill:
+                if g in cp._generators and n not in m.pending:
                     return ('C09', 'finished/killed coroutine %s is still known to the processor' % n, 'released')
     return None
 
@@ -232,6 +260,10 @@ def families(pid, tier):
         script_sets.append({'a': [(wa, None), (None, None)], 'b': [(wb, None), (1, None)],
                             'c': [(None, None)]})
     script_sets += [
+        {'a': [(None, None), (None, ('kill', 'b')), (None, None)], 'b': [(None, None), (None, None), (None, None)],
+         'c': [(None, ('kill', 'a')), (1, None), (None, None)]},
+        {'a': [(1, None), (None, ('kill', 'b')), (None, None)], 'b': [(2, None), (None, None)],
+         'c': [(None, ('start', 'b')), (None, None)]},
         {'a': [(None, ('start', 'c')), (None, None)], 'b': [(2, None), (None, None)], 'c': [(None, None), (1, None)]},
         {'a': [(None, ('kill', 'b')), (None, None)], 'b': [(None, None), (None, None)], 'c': [(1, ('kill', 'c'))]},
         {'a': [(None, ('kill', 'a'))], 'b': [(1, None)], 'c': [(None, ('kill', 'a')), (None, None)]},
@@ -249,15 +281,29 @@ def families(pid, tier):
             for combo in itertools.product([F(1, 2), 1, 2], repeat=k):
                 yield scripts, [('start', 'a'), ('start', 'b'), ('start', 'c')] + \
                     [('process', d) for d in combo] + [('process', 1), ('process', 3)]
-    ops = [('start', 'a'), ('start', 'b'), ('start', 'c'), ('kill', 'a'), ('kill', 'b'), ('bad',)] + \
-          [('process', d) for d in dts]
-    n = 4 if tier != 'thorough' else 5
-    for scripts in script_sets:
-        for k in range(2, n + 1):
-            for combo in itertools.product(ops, repeat=k):
-                if not any(o[0] == 'process' for o in combo):
+    # lifecycle of one coroutine next to a bystander: every sequence of start/kill/process up to
+    # length 6 (7 in the thorough tier)
+    for wa in (None, 1, 2):
+        scripts = {'a': [(wa, None), (None, None), (wa, None), (None, None)], 'b': [(1, None), (None, None)],
+                   'c': [(None, None)]}
+        lops = [('start', 'a'), ('kill', 'a'), ('process', 1), ('process', 2), ('start', 'b')]
+        for k in range(2, (7 if tier != 'thorough' else 8)):
+            for combo in itertools.product(lops, repeat=k):
+                if combo[0][0] != 'start':
                     continue
                 yield scripts, list(combo) + [('process', 1), ('process', 1), ('process', 2)]
+    ops = [('start', 'a'), ('start', 'b'), ('start', 'c'), ('kill', 'a'), ('kill', 'b'), ('bad',)] + \
+          [('process', d) for d in dts]
+    acting = [s for s in script_sets if any(st[1] is not None for sc in s.values() for st in sc)]
+    plain = [s for s in script_sets if s not in acting]
+    n = 4 if tier != 'thorough' else 5
+    for group, depth in ((acting, n), (plain, n - 1)):
+        for scripts in group:
+            for k in range(2, depth + 1):
+                for combo in itertools.product(ops, repeat=k):
+                    if not any(o[0] == 'process' for o in combo):
+                        continue
+                    yield scripts, list(combo) + [('process', 1), ('process', 1), ('process', 2)]
 
 
 def main():
@@ -294,7 +340,7 @@ def main():
                               'observed': v[1], 'violates': v[0], 'found_by': 'native bounded search',
                               'signature': sig}, default=str))
             return
-        if tried > (400000 if req.get('tier') == 'thorough' else 45000):
+        if tried > (2500000 if req.get('tier') == 'thorough' else 200000):
             break
     print(json.dumps({'status': 'not-found', 'tried': tried}))
 
